@@ -623,3 +623,62 @@ def confirm(case, variant='asan', extra_env=None):
         return d.run([case])[0]
     finally:
         d.close()
+
+
+def phase(ck, label, fn, shards, **info):
+    """run one bound (a list of shards) to completion or to the deadline; record it"""
+    b = dict(info)
+    b['phase'] = label
+    if ck.expired():
+        ck.cov['exhaustive'] = False
+        b.update({'completed': False, 'reason': 'deadline reached before this bound was started'})
+        ck.cov['bounds'].append(b)
+        return False
+    agg = {'n': 0, 'complete': True}
+
+    def on(r):
+        ck.merge(r)
+        agg['n'] += r.get('evaluations', 0)
+        agg['complete'] = agg['complete'] and r.get('complete', True)
+    t = time.time()
+    run_shards(fn, shards, on_result=on)
+    b.update({'cases': agg['n'], 'completed': agg['complete'], 'wall_s': round(time.time() - t, 1)})
+    ck.cov['bounds'].append(b)
+    if not agg['complete']:
+        ck.cov['exhaustive'] = False
+    return agg['complete']
+
+
+def replay_file(path, variant='asan'):
+    """run the script of a replay file alone in a fresh driver and print what happens"""
+    schemas, lines, root = {}, [], None
+    for l in open(path):
+        l = l.rstrip('\n')
+        if l.startswith('#') or not l:
+            if l.startswith('# expected') or l.startswith('# kind') or l.startswith('# property'):
+                print(l)
+            continue
+        if l.startswith('schema '):
+            _, sid, spec = l.split(' ', 2)
+            schemas[sid] = spec
+        elif l.startswith('root '):
+            root = dec(l.split(' ', 1)[1])
+            root = root.decode('latin-1')
+        elif l.startswith('variant '):
+            variant = l.split()[1]
+        else:
+            lines.append(l)
+    build([variant])
+    c = Case(lines, meta={'schemas': schemas, 'root': root})
+    r = confirm(c, variant)
+    print('status', r.status)
+    for l in r.lines:
+        print('observed', l)
+    if r.status not in ('ok', 'dirty'):
+        print(r.info[-3000:])
+    return r
+
+
+def chunks(lst, n):
+    for i in range(0, len(lst), n):
+        yield lst[i:i + n]
